@@ -15,6 +15,8 @@ func main() {
 		serveMain(os.Args[2:])
 	case "run":
 		runMain(os.Args[2:])
+	case "factgen":
+		factgenMain(os.Args[2:])
 	default:
 		fmt.Println("unknown subcommand")
 		os.Exit(2)
